@@ -291,6 +291,25 @@ def listenerFor (l : List LChain) (d : Nat) : List LChain :=
 /-- The filter chains Envoy selects for a connection to destination port `d`. -/
 def applicable (l : List LChain) (d : Nat) : List Chain := applicableIn (listenerFor l d) d
 
+/-- The virtualInbound listener's own port.  The real listener has one more chain, the blackhole chain
+    (`filter_chain_match.destination_port = 15006`, no transport protocol, no transport socket) that swallows
+    connections addressed to the listener itself; the model leaves it out, the inbound theorems exclude
+    `d = virtualInboundPort` (T-diff: the token `bh:15006.0` is in every real virtualInbound listener). -/
+def virtualInboundPort : Nat := 15006
+
+/-- `conflictWithReservedListener` for a service target of a sidecar (bind = wildcard): the static listeners
+    (status port 15021, Prometheus port 15090) and the virtual listeners (15001, 15006). -/
+def reservedTarget (t : Nat) : Bool := t == 15001 || t == 15006 || t == 15021 || t == 15090
+
+/-- `Proxy.CanBindToPort` in `buildInboundChainConfigs`, service-target loop of a proxy with iptables
+    redirection (`bindToPort = false`: the privileged-port clause does not apply): the service is skipped -
+    no chain config - but stays a service target for `needPerPortPassthroughFilterChain`. -/
+def canBindService (s : SvcPort) : Bool := !reservedTarget s.target
+
+/-- `Proxy.CanBindToPort` for the ingress listeners of a proxy with interception mode NONE (every listener
+    binds to its port): an unprivileged proxy cannot bind to ports below 1024. -/
+def canBindIngress (unprivileged : Bool) (s : SvcPort) : Bool := !(unprivileged && s.target < 1024)
+
 /-- A proxy with interception mode NONE (no iptables redirection): no virtualInbound listener, no chain
     configs from services, every Sidecar ingress listener binds to its own port. -/
 def inboundChainsNone (root : String) (ps : List PA) (w : Workload) (ingress : List SvcPort) : List LChain :=
